@@ -10,11 +10,8 @@ NOT_APPLICABLE = {
     "C25": "reference-model equivalence over operation sequences (runtime SanityCheck is its guard); not a shape-of-code fact",
     "C30": "exactness of 128-bit products/divisions and diagram comparison for all values is numeric",
     "C40": "optimality/sufficiency of search algorithms over all pools (algorithmic, value-level)",
-    "C41": "end-to-end numeric property (fees vs size, change) of transaction creation",
-    "C44": "equality with recomputation over histories (value-level)",
     "C45": "parser/printer inverse and checksum-distance properties (algorithmic)",
     "C49": "numeric functions vs standards (hash/cipher outputs)",
     "C50": "numeric/algebraic (curve arithmetic)",
-    "C51": "algorithmic no-false-negative properties of probabilistic filters",
     "C61": "reference-model equivalence of containers/allocators",
 }
